@@ -10,12 +10,15 @@ THEOREMS = [
     "C03.max_cycles_zero",
     "C03.error_returns",
     "C03.wrappers_within_bound",
+    "C03.replay_counts_cycles",
 ]
+LEAN_TARGETS = ["RreModel.C03.Theorems", "RreModel.C03.Theorems2"]
 N = {"quick": 6000, "thorough": 80000}
 EXHAUSTIVE = {"quick": False, "thorough": False}
 # the model of execute is C02's; its files are audited here too
 LEAN_FILES = ["RreModel/C02/Model.lean", "RreModel/C02/Api.lean", "RreModel/C02/ApiLemmas.lean", "RreModel/C02/Spec.lean", "RreModel/C02/Lemmas.lean",
-              "RreModel/C02/Wire.lean", "RreModel/C02/Oracle.lean"]
+              "RreModel/C02/Wire.lean", "RreModel/C02/Oracle.lean", "RreModel/C02/Passes.lean", "RreModel/C02/PassesLemmas.lean",
+              "RreModel/C02/Theorems.lean", "RreModel/C02/Theorems2.lean"]
 EXEC_TIMEOUT = 900
 RULE = ("cases = corpus + every max_cycles in 0..64 on a counter, a toggle and a ping-pong pair (both execute twins) + N random "
         "cases: counters with bounds 1..70, an always-true self-trigger, rings of 2..4 toggling rules, a mutually triggering triple, and "
@@ -46,7 +49,13 @@ RULE = ("cases = corpus + every max_cycles in 0..64 on a counter, a toggle and a
         "execute_workflow_step, activate_agenda_group, focus another group and come back, pop/clear + focus, twice in a row, or not at all / "
         "set_debug_mode only as the control) "
         "+ N/12 workflow histories (execute_workflow over 1..4 groups and execute_workflow_step mixed with set/pop/clear focus, "
-        "activate_agenda_group and the three execute entry points, rules spread over MAIN and 2..3 groups incl. never-quiescing ones). "
+        "activate_agenda_group and the three execute entry points, rules spread over MAIN and 2..3 groups incl. never-quiescing ones) "
+        "+ N/15 date-window boundary walks shared with C02 (instants in nanoseconds: bounds and execute_at_time instants inside one second / "
+        "millisecond / microsecond, before / at / after each bound, all three date builders, text and arithmetic timestamps: a rule inside its "
+        "window must take part, else the call stops early at a non-fixpoint) "
+        "+ N/15 knowledge-base replacement histories shared with C02 (*knowledge_base_mut() = a freshly built base with the same / a smaller / "
+        "a larger version() and more / as many / fewer rules, after an execute and after edits that raised the old version counter; every rule "
+        "of the new base takes part in the next call). "
         "The three execute entry points (execute_at_time, execute_with_callback, plain execute) are drawn in every history family. Every case "
         "runs in a thread with a 5 s deadline (a call that does not return is observed as `hang`). Observations: GruleExecutionResult "
         "{cycle_count, rules_evaluated, rules_fired}, the callback/marker firing sequence, facts and active group after each call; diffed "
@@ -54,7 +63,8 @@ RULE = ("cases = corpus + every max_cycles in 0..64 on a counter, a toggle and a
         "fired<=evaluated<=cycles*|KB|, cycles<=fired+1, all 0 when max_cycles=0) and C03.fixpointOk (cycle_count<max_cycles => every rule "
         "that passes the reference gate has a false condition on the final facts, re-evaluated by the reference evaluator), and "
         "early_stop_after_firing_pass (cycle_count<max_cycles => the firings split into at most cycle_count-1 passes over the sorted "
-        "knowledge base, i.e. the last pass fired nothing) are evaluated on the implementation's observations, for every call of a history. non-trivial = some execute made >= 3 passes or ended at the bound after firing.")
+        "knowledge base, i.e. the last pass fired nothing) and C02's segmented replay of every pass of every call (C02.segAccept: exactly "
+        "cycle_count passes of the reference, the last one silent when the call returns before the bound; execute_workflow step by step) are evaluated on the implementation's observations, for every call of a history. non-trivial = some execute made >= 3 passes or ended at the bound after firing.")
 TRUSTED = [
     "Lean 4.33 kernel; axioms of every property theorem within {propext, Classical.choice, Quot.sound} (audited each run)",
     "hand-written model RreModel/C02/Model.lean (exec/cycles/passLoop) tied to src/engine/engine.rs execute_at_time / execute_with_callback by the correspondence check only",
